@@ -357,9 +357,7 @@ def leaf_name_ownership(ctx, cg, ef):
                   fail_detail=f"store {short(w.node, 70)}; gate: {unparse(t.ast) if t else None}", key='R-OWN.leaf|replace_child|name-gate', line=node.line)
         if ok:
             # the gate precedes every mutation of the insertion list
-            muts = [n for n in g.stmt_nodes() if any(isinstance(c, ast.Call) and isinstance(c.func, ast.Attribute) and
-                                                     c.func.attr in ('remove', 'insert', 'append', 'pop') and
-                                                     unparse(c.func.value) == 'self._unordered_children' for e in n.exprs() for c in walk_local(e))]
+            muts = dom.list_mutation_nodes(g, 'self._unordered_children')
             res.check(all(g.path_avoiding(g.entry, m, avoid=[t], edge_ok=on) is None for m in muts), 'R-OWN.leaf', rc.fq, "the name test precedes every change of the insertion list",
                       key='R-OWN.leaf|replace_child|gate-first')
 
